@@ -480,9 +480,56 @@ def copy_and_buffer_probe(ctx):
                           tags=dict(clause="history_independence", computer=name.split()[0]))
 
 
+def interleaved_instances_probe(ctx):
+    """TWO independently built computers of the same configuration, both mid-utterance at once (one per channel of a stereo
+    recording), fed their chunks alternately: what each returns depends on ITS utterance only - bit-identical to a fresh
+    instance given the same chunks with nothing else alive"""
+    from pydrobert.speech import compute, filters
+
+    def banks():
+        return (filters.TriangularOverlappingFilterBank("mel", num_filts=4, sampling_rate=8000),
+                filters.GaborFilterBank("mel", num_filts=8, low_hz=100.0, high_hz=2000.0, sampling_rate=8000))
+    makers = [("stft causal", lambda: compute.STFTFrameComputer(banks()[0], frame_shift_ms=5.0, frame_style="causal")),
+              ("stft centered", lambda: compute.STFTFrameComputer(banks()[0], frame_shift_ms=5.0, frame_style="centered")),
+              ("si causal", lambda: compute.SIFrameComputer(banks()[1], frame_shift_ms=2.0, frame_style="causal"))]
+    rs = np.random.RandomState(82)
+    for name, mk in makers:
+        L = mk().frame_length
+        for csize in (37, L + 3, 2 * L + 1):
+            xs = [rs.randn(5 * L + 11), rs.randn(5 * L + 11)]
+            xs[0].setflags(write=False), xs[1].setflags(write=False)
+
+            def alone(x):
+                f = mk()
+                parts = [f.compute_chunk(x[o:o + csize]) for o in range(0, len(x), csize)] + [f.finalize()]
+                return np.concatenate(parts)
+            refs = [alone(xs[0]), alone(xs[1])]
+            case = dict(computer=name.split()[0], config=name, probe="two live instances fed alternately", chunk=csize, L=L)
+            ctx.case(case, kind="interleaved_instances:" + name.split()[0])
+            try:
+                a, b = mk(), mk()
+                pa, pb = [], []
+                for o in range(0, len(xs[0]), csize):
+                    pa.append(a.compute_chunk(xs[0][o:o + csize]))
+                    pb.append(b.compute_chunk(xs[1][o:o + csize]))
+                pa.append(a.finalize())
+                pb.append(b.finalize())
+                got = [np.concatenate(pa), np.concatenate(pb)]
+            except Exception as e:
+                ctx.violation(case, "no exception", "%s: %s" % (type(e).__name__, str(e)[:150]), "history of calls raises",
+                              tags=dict(clause="raises", computer=name.split()[0], exc=type(e).__name__))
+                continue
+            for k in (0, 1):
+                if got[k].shape != refs[k].shape or got[k].tobytes() != refs[k].tobytes():
+                    ctx.violation(dict(case, which=k), "bit-identical to the same stream on a lone instance", "differs",
+                                  "a computer's output depends only on its own utterance (another live instance of the same configuration is fed in between)",
+                                  tags=dict(clause="history_independence", computer=name.split()[0], how="interleaved_instances"))
+
+
 def library_history_oracle(ctx):
     """library banks, STFT and SI: history-laden instance vs fresh instance, bit-identical"""
     copy_and_buffer_probe(ctx)
+    interleaved_instances_probe(ctx)
     si_history_correspondence(ctx)
     si_previous_length_sweep(ctx)
     stft_gap_previous_length_sweep(ctx)
